@@ -677,7 +677,7 @@ theorem asgi_source_pinned :
     Gen.Stream.asgiStreamFinally = ["if()[aclose]"] ∧
     Gen.Stream.asgiConsumerFinally =
       ["flag", "while(empty)[get_nowait]", "if(cancel)[exception;if()[raise]]"] ∧
-    Gen.Stream.asgiRelayFinally = ["put", "if()[aclose]"] ∧
+    Gen.Stream.asgiRelayFinally = ["try[put]finally[if()[aclose]]"] ∧
     Gen.Stream.asgiQueueMaxsize = 1 := by
   decide
 
